@@ -316,6 +316,9 @@ func (c *clipperBase) executeInternal(ct ClipType, fillRule FillRule) {
 	}
 
 	for c.succeeded {
+		if verifOn {
+			verifGate(c)
+		}
 		c.insertLocalMinimaIntoAEL(y)
 
 		for {
